@@ -889,6 +889,32 @@ func c11ReadyToStreamGuard() bool {
 	return ok && c11Sel(c.Fun) == r+".GetLastApplied" && c11Sel(be.Y) == r+".onDiskInitIndex"
 }
 
+// c11CloseChecksDestroyed: closeWorker.handle returns without calling <node>.destroy() when
+// <node>.destroyed() (DestroyedC already closed): a node that reaches the close pool twice is
+// closed once.
+func c11CloseChecksDestroyed() bool {
+	p := loadPkg(".")
+	fd := p.Func("closeWorker", "handle")
+	var guard, destroy token.Pos
+	ast.Inspect(fd.Body, func(n ast.Node) bool {
+		switch x := n.(type) {
+		case *ast.IfStmt:
+			if c, ok := x.Cond.(*ast.CallExpr); ok && strings.HasSuffix(c11Sel(c.Fun), ".destroyed") && c11Terminates(x.Body) && guard == 0 {
+				guard = x.Pos()
+			}
+		case *ast.CallExpr:
+			if strings.HasSuffix(c11Sel(x.Fun), ".destroy") && destroy == 0 {
+				destroy = x.Pos()
+			}
+		}
+		return true
+	})
+	if destroy == 0 {
+		panic("closeWorker.handle: no destroy() call")
+	}
+	return guard != 0 && guard < destroy
+}
+
 func init() {
 	str := func(s string) string { return fmt.Sprintf("%q%%string", s) }
 	register(&Unit{Name: "C11", Imports: "From Coq Require Import Bool.", Facts: []Fact{
@@ -983,6 +1009,10 @@ func init() {
 		{Name: "ready_to_stream_checks_applied", Gen: func() string {
 			return "(* rsm.StateMachine.ReadyToStream: on-disk: GetLastApplied() >= onDiskInitIndex, nothing else *)\n" +
 				defBool("ready_to_stream_checks_applied", c11ReadyToStreamGuard())
+		}},
+		{Name: "close_worker_checks_destroyed", Gen: func() string {
+			return "(* closeWorker.handle skips a node whose state machine is already destroyed *)\n" +
+				defBool("close_worker_checks_destroyed", c11CloseChecksDestroyed())
 		}},
 		{Name: "apply_checks_stopped", Gen: func() string {
 			return "(* engine.processApplies tests node.stopped() before node.handleTask *)\n" +
